@@ -381,6 +381,13 @@ pub fn rws_string_from_utf8(v: Vec<u8>) -> (r: Result<String, std::string::FromU
     String::from_utf8(v)
 }
 
+// String::from_utf8_lossy: total; the text is not specified (it is only displayed). The shim returns the owned String
+// instead of Cow<str>.
+#[verifier::external_body]
+pub fn rws_string_from_utf8_lossy(v: &[u8]) -> (r: String) {
+    String::from_utf8_lossy(v).into_owned()
+}
+
 impl RwsToString for std::string::FromUtf8Error {
     uninterp spec fn ts(&self) -> Seq<char>;
     #[verifier::external_body]
